@@ -3,6 +3,7 @@
 # check of the property it breaks, reverts, and prints DETECTED / MISSED per seed.
 # Exit 1 if any kept seed is no longer detected (or no longer applies).
 set -u
+export VERIF_EVIDENCE_DIR=/tmp/seed_evidence; mkdir -p $VERIF_EVIDENCE_DIR
 export PATH=/opt/veriftools/go1.26.8/bin:$PATH GOFLAGS=-mod=mod GOPROXY=off GOSUMDB=off GOTOOLCHAIN=local; unset GOWORK
 cd /verif && ./setup.sh >/dev/null 2>&1
 if [ -n "$(git -C /repo status --porcelain)" ]; then echo "/repo is not clean"; exit 2; fi
